@@ -15,57 +15,59 @@ certificate, their ROUND-CHANGEs carry it, and the next running leader must re-p
 prepared in the highest round (rule J2) with a justification every receiver accepts.
 `Props/C04Prepared.lean` proves that on the phased (untimed) schedule. Here the timed model is used.
 
-THE FULL STATEMENT (not proved here, kept as the target):
+THE FULL STATEMENT IS PROVED (second session of this module), for EVERY execution of the timed
+semantics — any interleaving, any delivery instants in `(sent + lo, sent + hi]`, any oracle at every
+delivery, phases overlapping — and any prepared state `CertState` (members prepared in different
+rounds on different values included):
 
-  theorem timed_prepared_good_round … (hy : PHyp P timeout X C old) (hp : PoisedP P X C old s)
-      (hl : X.l ∈ P.R) (hq : P.d.quorum ≤ P.R.length) (hfit : X.σ + 4 * P.hi < timeout X.ρ)
-      (hfifo : X.B + 4 ≤ P.d.fifo) (acts) (s') (hs : texec P s acts = some s') :
-      ∃ w, w ≠ 0 ∧ (the value prepared in the highest prepared round among the leader's quorum of
-                    ROUND-CHANGEs, else the leader's input) ∧
-        (∀ p ∈ P.R, noFault (s'.node p).outs ∧ (s'.node p).st.dead = false ∧ (s'.node p).st.round ≤ X.ρ ∧
-          ((s'.node p).st.qCommit ≠ [] → GoodOutcome w X.ρ ((s'.node p).st, (s'.node p).outs))) ∧
-        (X.E + X.σ + 4 * P.hi < s'.now →
-          ∀ p ∈ P.R, GoodOutcome w X.ρ ((s'.node p).st, (s'.node p).outs))
-
-  and `timed_prepared_decides_within_rotation`: the same after `m < n` rounds whose leaders are down,
-  bound `E0 + (timeout ρ0 + … + timeout (ρ0 + m - 1)) + σ + 4·hi`.
-
-WHAT IS PROVED (for EVERY execution of the timed semantics — any interleaving, any delivery instants
-in `(sent + lo, sent + hi]`, any oracle at every delivery — and any prepared state `CertState`, members
-prepared in different rounds on different values included):
-
-* `timed_prepared_good_round_partial` — the first of the four message delays of the good round, which
-  is the step where `timed_good_round` used "the leader holds a quorum of NULL ROUND-CHANGEs": every
-  running member enters round `ρ` in `[E, E + σ]` and broadcasts a ROUND-CHANGE carrying its
-  certificate; until the leader has proposed nobody faults, decides, returns, leaves the round or
-  loses its prepared state, no round timer of round `ρ` fires, and the clock cannot pass `E + σ + hi`;
-  the execution passes through ONE delivery at which the leader — holding the ROUND-CHANGEs of a
-  duplicate-free quorum `Q` of running members — broadcasts its PRE-PREPARE for a value `w ≠ 0` with a
-  justification that `isJustified` accepts at every receiver (J1 or J2), where `w` is the value
-  prepared in the highest prepared round among `Q`, or the leader's input if all of `Q` are null
-  (`ValueSpec`); that PRE-PREPARE is in flight to every running member at an instant `≤ E + σ + hi`.
-  MISSING relative to the full statement: the three remaining delays (PRE-PREPARE, PREPARE, COMMIT
-  delivered over buffers that hold earlier rounds' messages, phases overlapping) — i.e. the conclusion
-  "everybody has decided `w` by `E + σ + 4·hi`". No extra hypothesis is used; the hypothesis
-  `σ + hi < timeout ρ` is weaker than the `σ + 4·hi < timeout ρ` of the full statement.
-* `timed_prepared_silent_round` — FULL strength: a round whose leader is down, started from any such
-  prepared state, ends with the cluster poised for the next round — same prepared states, skew
-  preserved, all ROUND-CHANGEs (with their certificates) delivered, one more message per source.
-  So prepared state left behind by a partial round survives any number of leaderless rounds in the
-  timed model (`timed_silent_round` needed `Poised`, i.e. nobody prepared).
-* `timed_prepared_decides_within_rotation_partial` — production leader function: there is a first
-  round `ρ0 + m`, `m < n`, whose leader runs; every execution that has passed
-  `E0 + (timeout ρ0 + … + timeout (ρ0 + m - 1)) + σ + hi` went through the delivery at which that
-  leader proposed (as above) no later than that instant. MISSING: as above (`+ 3·hi` and the decision).
+* `timed_prepared_good_round` — leader of `ρ` runs with an input, `σ + 4·hi < timeout ρ`: either the
+  leader has not proposed yet (then the clock is `≤ E + σ + hi` and everybody is quiet and undecided),
+  or there is ONE value `w ≠ 0` — the value prepared in the highest prepared round among the quorum
+  `Q` of ROUND-CHANGEs the leader held when it proposed, else its input (`ValueSpec`) — such that
+  nobody faults, returns or leaves round `ρ`, whoever has decided has decided `w` in round `ρ` exactly
+  once, and once the clock has passed `E + σ + 4·hi` EVERY running member has decided `w`.
+* `timed_prepared_decides_within_rotation` — production leader function: after the last fault, with
+  arbitrary prepared state left behind by earlier partial rounds, there is a first round `ρ0 + m`,
+  `m < n`, whose leader runs; nobody ever faults, and by
+  `E0 + (timeout ρ0 + … + timeout (ρ0 + m - 1)) + σ + 4·hi` every running member has decided one
+  value (`ValueSpec` of the leader's quorum in round `ρ0 + m`).
+* `timed_prepared_silent_round` — a round whose leader is down, started from any such prepared state,
+  ends with the cluster poised for the next round: same prepared states, skew preserved, all
+  ROUND-CHANGEs (with their certificates) delivered, one more message per source.
+* `timed_prepared_good_round_partial`, `timed_prepared_decides_within_rotation_partial` (first
+  session; kept, now consequences in spirit): the ROUND-CHANGE delay alone — the execution passes
+  through ONE delivery at which the leader broadcasts a PRE-PREPARE that `isJustified` accepts at
+  every receiver, in flight to everybody at an instant `≤ E + σ + hi` — under the weaker hypothesis
+  `σ + hi < timeout ρ` and without the two extra hypotheses below.
+* `prepared_member_any_order`, `prepared_member_decides` — member level: the PRE-PREPARE, PREPAREs,
+  COMMITs and DECIDEDs of the round do their work in any order at a member holding earlier rounds'
+  messages; those are inert.
 * `stuck_is_poised_prepared` — the phased state predicate `Stuck` of `Props/C04Prepared.lean`
-  (proved to hold at the start and to be preserved by lost and by partially progressing rounds:
-  `stuck_at_start`, `partial_round_keeps_stuck`) at every running member gives the hypotheses here.
+  (`stuck_at_start`, `partial_round_keeps_stuck`) at every running member gives the hypotheses here.
+
+How (`Proofs/QbftTimedPrepared.lean`, ~4100 lines): `S1` / `S1H` — invariant of the ROUND-CHANGE stage
+on top of `rc_step'` of `Proofs/QbftPrepared.lean`; `TP.Shape` / `TP.Act` / `TP.RInv` — the cluster
+invariant of `Proofs/QbftTimed.lean` generalised (members hold arbitrary earlier-round messages
+`G.pre p`, ROUND-CHANGEs carry certificates, the PRE-PREPARE a J1/J2 justification `TP.JOk`, the value
+is the one the leader proposed); `TP.qrc_some_any` — `getJustifiedQrc` succeeds on EVERY buffer of
+the round (a ROUND-CHANGE arriving after the proposal never yields `UnjustQuorumRoundChanges`);
+`s1_rinv`, `fire_rinv` — the stage invariant, and the firing delivery, establish `TP.RInv` for the
+value proposed; `TP.live` — the thresholds follow one from the other within `4·hi`;
+`texec_sameSem` — the history variables `rcvd` / `log` are not read by the semantics.
+
+Two hypotheses beyond `C04Timed` + `CertState`, both explicit in the statements:
+* `hnd`: no DECIDED of an earlier round sits in a running member's buffer (an undecided member that
+  had received a justified DECIDED would have decided);
+* `hinpC`: the members' inputs are the proposals `P.inp` handed over by `start`.
+The full theorems are for `σ ≤ lo` (as `C04Timed`); the skew-tolerant treatment of `C04Resync` is not
+combined with prepared members.
 
 Non-vacuity (kernel-evaluated): 4 members, member 0 down, round 1 led by member 1 progressed
-partially (members 1 and 3 prepared `(1, 8)`, member 2 did not); in the timed model round 2 (leader
-2, unprepared, own input 9) decides 8 at all three members by `E + σ + 4·hi` in an execution with the
-full latency and in one with short latencies — the full statement holds on these executions — and
-the hypotheses of the theorems hold in the start state.
+partially (members 1 and 3 prepared `(1, 8)`, member 2 did not); the hypotheses of the theorems hold
+in the timed start state `sp` (`sp_poised`), `timed_prepared_good_round` is instantiated on it
+(every execution past 1.4 s has all three members decided on one value in round 2), and two
+kernel-evaluated executions (full latency; short latencies, other oracles and delivery orders)
+decide the prepared value 8 — not the leader's input 9 — within `E + σ + 4·hi` = 1.4 s.
 
 Hypotheses as in `C04Timed`: `σ ≤ lo` (entry skew at most the minimal latency), relative round timer,
 `compare` succeeds, no Byzantine member, no clock drift, exact timers.
@@ -210,16 +212,138 @@ theorem timed_prepared_decides_within_rotation_partial (slot ty n fifo : Nat) (P
 
 /-- **The phased predicate `Stuck` gives the timed start state**: if every running member satisfies
 `Stuck` for round `X.ρ - 1` (`Props/C04Prepared.lean`: holds at the start, preserved by lost and by
-partially progressing rounds), nothing is in flight and the round timers are due in `[E, E + σ]`, then
+partially progressing rounds), nothing is in flight, the round timers are due in `[E, E + σ]` and the
+timer objects were not asked for round `X.ρ` or later yet, then
 the hypotheses `PHyp` / `PoisedP` of the theorems above hold with `C` = the members' own states. -/
 theorem stuck_is_poised_prepared (P : TParams) (timeout : Nat → Nat) (X : PRd) (old : Nat → List Msg)
     (s : TState) (hR : P.R.Nodup) (hn : 1 ≤ P.d.nodes) (hρ : 2 ≤ X.ρ) (hlead : P.d.leader X.ρ = X.l)
     (harm : P.arm = relTimer timeout) (hfifo : X.B + 1 ≤ P.d.fifo) (hlo : X.σ ≤ P.lo)
     (hst : ∀ p ∈ P.R, Stuck P.d (X.ρ - 1) X.B p (old p) ((s.node p).st, (s.node p).outs))
     (hinp : X.l ∈ P.R → (s.node X.l).st.inputValue ≠ 0) (hnet : s.net = [])
-    (htm : ∀ p ∈ P.R, ∃ e, (s.node p).timer = some e ∧ X.E ≤ e ∧ e ≤ X.E + X.σ ∧ s.now ≤ e) :
+    (htm : ∀ p ∈ P.R, ∃ e, (s.node p).timer = some e ∧ X.E ≤ e ∧ e ≤ X.E + X.σ ∧ s.now ≤ e)
+    (hfd : ∀ p ∈ P.R, ∀ r, X.ρ ≤ r → RoundTimer.lookup r (s.node p).firsts = none) :
     PHyp P timeout X (fun p => (s.node p).st) old ∧ PoisedP P X (fun p => (s.node p).st) old s :=
-  stuck_poised hR hn hρ hlead harm hfifo hlo hst hinp hnet htm
+  stuck_poised hR hn hρ hlead harm hfifo hlo hst hinp hnet htm hfd
+
+/-- **After the proposal, at every member: the messages of the round do their work in ANY order, and
+what the member holds from earlier rounds is inert** (member level; the step from
+`timed_prepared_good_round_partial` towards the decision). A running, undecided member `p` in round
+`G.ρ` holds the messages `L` — messages of earlier rounds of any type with any attachments
+(`TP.Shape.old`), ROUND-CHANGEs of the round carrying prepared certificates (`TP.Shape.rc`), possibly
+messages of the round already — in the product form `TP.Act` (its `dedup` records exactly the
+thresholds reached by `L`; nothing is assumed about its prepared state). Then for every sequence `es`
+of further deliveries of PRE-PREPARE (justified by J1 or J2 for `G.v`), PREPAREs, COMMITs and DECIDEDs
+of the round (one per sender and type, within the FIFO limit), in any order — PREPAREs before the
+PRE-PREPARE, COMMITs before the last PREPARE — and with any oracle per delivery: the member stays
+in that form without a fault or a decision, or it has decided `G.v` in round `G.ρ` exactly once
+without a fault (`TP.Dcd`: running, `qCommit` a quorum of COMMITs for `G.v`). -/
+theorem prepared_member_any_order (d : Def) (R : List Nat) (G : TP.Rd) (I : Nat → Nat) (p : Nat)
+    (hq1 : 1 ≤ d.quorum) (es : List (Oracle × Msg)) (s : NodeState) (L : List Msg)
+    (h : TP.Act d G I p s L) (hsh : ∀ x ∈ L ++ es.map (·.2), TP.Shape d R G x)
+    (hnd : ∀ K, (K = tPrePrepare ∨ K = tPrepare ∨ K = tCommit ∨ K = tRoundChange) →
+      (srcsOf K G.ρ (L ++ es.map (·.2))).Nodup)
+    (hfifo : ∀ a, ((L ++ es.map (·.2)).filter (fun x => x.core.src == a)).length ≤ d.fifo)
+    (hrd : ∀ e ∈ es, e.2.core.round = G.ρ ∧ e.2.core.typ ≠ tRoundChange) :
+    (TP.Act d G I p (TP.runRecv d s es).1 (L ++ es.map (·.2)) ∧ Quiet (TP.runRecv d s es).2) ∨
+    (TP.Dcd d G p (TP.runRecv d s es).1 ∧ decidedOnce G.v G.ρ (TP.runRecv d s es).2 = true ∧
+      noFault (TP.runRecv d s es).2 = true) :=
+  TP.tail_any_order hq1 es s L h hsh hnd hfifo hrd
+
+/-- … **and it has decided as soon as COMMITs of a quorum of distinct members, or a DECIDED, are among
+the deliveries**, whatever else arrived before, in between or after. -/
+theorem prepared_member_decides (d : Def) (R : List Nat) (G : TP.Rd) (I : Nat → Nat) (p : Nat)
+    (hq1 : 1 ≤ d.quorum) (es : List (Oracle × Msg)) (s : NodeState) (L : List Msg)
+    (h : TP.Act d G I p s L) (hsh : ∀ x ∈ L ++ es.map (·.2), TP.Shape d R G x)
+    (hnd : ∀ K, (K = tPrePrepare ∨ K = tPrepare ∨ K = tCommit ∨ K = tRoundChange) →
+      (srcsOf K G.ρ (L ++ es.map (·.2))).Nodup)
+    (hfifo : ∀ a, ((L ++ es.map (·.2)).filter (fun x => x.core.src == a)).length ≤ d.fifo)
+    (hrd : ∀ e ∈ es, e.2.core.round = G.ρ ∧ e.2.core.typ ≠ tRoundChange)
+    (hfin : d.quorum ≤ (srcsOf tCommit G.ρ (L ++ es.map (·.2))).length ∨
+      ∃ e ∈ es, e.2.core.typ = tDecided) :
+    TP.Dcd d G p (TP.runRecv d s es).1 ∧ decidedOnce G.v G.ρ (TP.runRecv d s es).2 = true ∧
+      noFault (TP.runRecv d s es).2 = true :=
+  TP.tail_decides hq1 es s L h hsh hnd hfifo hrd hfin
+
+/-- **A round whose leader runs decides within `σ + 4·δ`, whatever the members prepared before** —
+the FULL statement. Relative round timer; the running members (at least a quorum) are poised for round
+`X.ρ ≥ 2` (`PoisedP` / `PHyp`: in round `X.ρ - 1`, undecided, timers due in `[E, E + σ]`, `σ ≤ lo`,
+nothing in flight, member `p` holding the earlier-round messages `old p` — none of them a DECIDED —
+and the prepared state / input of `C p`: null or a valid certificate of an earlier round, different
+members possibly prepared in different rounds on different values); the inputs are the proposals
+`P.inp`; the leader `X.l` runs and has an input; `σ + 4·hi < timeout X.ρ`; `B + 4 ≤ fifo`. Then for
+EVERY execution (any interleaving, any delivery instants, any oracle, phases overlapping), in its
+final state `s'`:
+* either the leader has not proposed yet — then `s'.now ≤ E + σ + hi` and every running member is
+  quiet (no fault, no decision), has not returned, is undecided and in a round `≤ X.ρ`;
+* or there are a value `w ≠ 0` and a duplicate-free quorum `Q` of running members such that `w` is
+  the value prepared in the highest prepared round among the ROUND-CHANGEs of `Q`, or the leader's
+  input if those are all null (`ValueSpec`), and at every running member: no fault (`bug` /
+  `unjust`), `Run` has not returned, the member has not left round `X.ρ` (no round timer of the
+  round has fired), a member that has decided has decided `w` in round `X.ρ` exactly once — and once
+  the clock has passed `E + σ + 4·hi` EVERY running member has decided `w`. -/
+theorem timed_prepared_good_round (P : TParams) (timeout : Nat → Nat) (X : PRd)
+    (C : Nat → NodeState) (old : Nat → List Msg) (hy : PHyp P timeout X C old)
+    (hnd : ∀ p ∈ P.R, ∀ x ∈ old p, x.core.typ ≠ tDecided)
+    (hinpC : ∀ p ∈ P.R, (C p).inputValue = P.inp p)
+    (hl : X.l ∈ P.R) (hq : P.d.quorum ≤ P.R.length) (hfit : X.σ + 4 * P.hi < timeout X.ρ)
+    (hfifo : X.B + 4 ≤ P.d.fifo) (s : TState) (hp : PoisedP P X C old s)
+    (acts : List TAct) (s' : TState) (hs : texec P s acts = some s') :
+    (s'.now ≤ X.E + X.σ + P.hi ∧
+      ∀ p ∈ P.R, Quiet (s'.node p).outs ∧ (s'.node p).st.dead = false ∧ (s'.node p).st.qCommit = [] ∧
+        (s'.node p).st.round ≤ X.ρ) ∨
+    ∃ w Q, w ≠ 0 ∧ Q.Nodup ∧ Q.length = P.d.quorum ∧ (∀ a ∈ Q, a ∈ P.R) ∧
+      ValueSpec (rcsOf X.ρ C) Q (C X.l).inputValue w ∧
+      (∀ p ∈ P.R, noFault (s'.node p).outs = true ∧ (s'.node p).st.dead = false ∧
+        (s'.node p).st.round ≤ X.ρ ∧
+        ((s'.node p).st.qCommit ≠ [] → GoodOutcome w X.ρ ((s'.node p).st, (s'.node p).outs))) ∧
+      (X.E + X.σ + 4 * P.hi < s'.now →
+        ∀ p ∈ P.R, GoodOutcome w X.ρ ((s'.node p).st, (s'.node p).outs)) :=
+  good_round_any hy hnd hinpC hl hq hfit hfifo hp acts hs
+
+/-- **Decision within one leader rotation after the last fault, with arbitrary prepared state left
+behind by earlier partial rounds** — the FULL statement. Production leader function (`leaderFn`,
+`rotDef`), `n` members of which `P.R` (at least a quorum, all with their proposals) run, relative
+round timer, the cluster poised for round `X.ρ ≥ 2` as in `timed_prepared_good_round`, `σ ≤ lo`, and
+`σ + 4·hi < timeout ρ` for the `n` rounds `X.ρ … X.ρ + n - 1`. Then there is a first round `X.ρ + m`,
+`m < n`, whose leader runs, and in every execution: nobody faults and `Run` never returns, and once
+the clock has passed
+
+  `E + (timeout X.ρ + … + timeout (X.ρ + m - 1)) + σ + 4·hi`
+
+every running member has decided ONE value `w ≠ 0` in round `X.ρ + m` exactly once: the value prepared
+in the highest prepared round among a quorum `Q` of the ROUND-CHANGEs for that round, else the input
+of its leader. The `m` leaderless rounds keep the members' prepared certificates
+(`timed_prepared_silent_round`). -/
+theorem timed_prepared_decides_within_rotation (slot ty n fifo : Nat) (P : TParams)
+    (hd : P.d = rotDef slot ty n fifo) (timeout : Nat → Nat) (X : PRd) (C : Nat → NodeState)
+    (old : Nat → List Msg) (hy : PHyp P timeout X C old)
+    (hnd : ∀ p ∈ P.R, ∀ x ∈ old p, x.core.typ ≠ tDecided)
+    (hinpC : ∀ p ∈ P.R, (C p).inputValue = P.inp p) (hRn : ∀ p ∈ P.R, p < n) (hn : 1 ≤ n)
+    (hq : P.d.quorum ≤ P.R.length) (hinp : ∀ p ∈ P.R, (C p).inputValue ≠ 0)
+    (hfifo : X.B + n + 3 ≤ fifo)
+    (hfit : ∀ ρ, X.ρ ≤ ρ → ρ < X.ρ + n → X.σ + 4 * P.hi < timeout ρ) :
+    ∃ m, m < n ∧ leaderFn slot ty (X.ρ + m) n ∈ P.R ∧
+      (∀ k, k < m → leaderFn slot ty (X.ρ + k) n ∉ P.R) ∧
+      ∀ (s : TState), PoisedP P X C old s →
+      ∀ (acts : List TAct) (s' : TState), texec P s acts = some s' →
+        (∀ p ∈ P.R, noFault (s'.node p).outs = true ∧ (s'.node p).st.dead = false) ∧
+        (X.E + sumTimeouts timeout X.ρ m + X.σ + 4 * P.hi < s'.now →
+          ∃ w Q, w ≠ 0 ∧ Q.Nodup ∧ Q.length = P.d.quorum ∧ (∀ a ∈ Q, a ∈ P.R) ∧
+            ValueSpec (rcsOf (X.ρ + m) C) Q (C (leaderFn slot ty (X.ρ + m) n)).inputValue w ∧
+            ∀ p ∈ P.R, GoodOutcome w (X.ρ + m) ((s'.node p).st, (s'.node p).outs)) := by
+  have hq1 : 1 ≤ P.d.quorum := quorum_pos P.d hy.n1
+  have hne : P.R ≠ [] := by
+    intro hc; rw [hc] at hq; simp at hq; omega
+  obtain ⟨m, hm, hmR, hsil⟩ := first_running_leader slot ty n hn P.R hRn hne X.ρ
+  refine ⟨m, hm, hmR, hsil, ?_⟩
+  intro s hp acts s' hs
+  have hlead : ∀ r, P.d.leader r = leaderFn slot ty r n := by intro r; rw [hd]; rfl
+  have hff : P.d.fifo = fifo := by rw [hd]; rfl
+  have := rot_prepared_decides hq hinp hinpC m X old hy hnd (fun k hk => by rw [hlead]; exact hsil k hk)
+    (by rw [hlead]; exact hmR) (fun k hk => hfit (X.ρ + k) (by omega) (by omega))
+    (by rw [hff]; omega) s hp acts s' hs
+  rw [hlead] at this
+  exact this
 
 /-! ### Non-vacuity: a 4-member cluster, one down, prepared in round 1, deciding in round 2 -/
 
@@ -259,13 +383,18 @@ theorem sp_poised : ∃ old, PHyp Pp (fun _ => 1000000000) Xp (fun p => (sp.node
         · exact List.Perm.refl l
         · exact List.reverse_perm l) dp4 dc4 (partialDeliveryB_sound (by decide))
   refine ⟨old, stuck_is_poised_prepared Pp (fun _ => 1000000000) Xp old sp (by decide) (by decide)
-    (by decide) (by decide) rfl (by decide) (by decide) (fun p hp => (hold p hp).1) ?_ rfl ?_⟩
+    (by decide) (by decide) rfl (by decide) (by decide) (fun p hp => (hold p hp).1) ?_ rfl ?_ ?_⟩
   · intro _
     have := (hold 2 (by decide)).2.1
     show (clp 2).1.inputValue ≠ 0
     rw [show (clp 2).1.inputValue = inp4 2 from this]; decide
   · intro p _
     exact ⟨1000000000, rfl, by decide, by decide, by decide⟩
+  · intro p _ r hr
+    have hr' : 2 ≤ r := hr
+    show RoundTimer.lookup r [(1, 1000000000)] = none
+    simp only [RoundTimer.lookup]
+    rw [if_neg (by omega)]
 
 /-- `timed_prepared_good_round_partial` applies to `sp`: every execution that has passed 1.1 s went
 through the leader's proposal. -/
@@ -279,6 +408,27 @@ example : ∀ (acts : List TAct) (s' : TState), texec Pp sp acts = some s' → 1
   · have : s'.now ≤ 1000000000 + 0 + 100000000 := h
     omega
   · exact ⟨a1, k, o, a2, s1, s2, e1, e2, e3, e4, e5⟩
+
+/-- the FULL theorem `timed_prepared_good_round` applies to `sp`: in every execution that has passed
+`E + σ + 4·hi` = 1.4 s all three members have decided the prepared value 8 in round 2 (the only
+candidates `ValueSpec` leaves are 8 and the leader's input 9; all three members form the quorum `Q`,
+members 1 and 3 are prepared on `(1, 8)`: it is 8). -/
+example : ∀ (acts : List TAct) (s' : TState), texec Pp sp acts = some s' → 1400000000 < s'.now →
+    ∃ w, w ≠ 0 ∧ ∀ p ∈ Pp.R, GoodOutcome w 2 ((s'.node p).st, (s'.node p).outs) := by
+  obtain ⟨old, hy, hp⟩ := sp_poised
+  intro acts s' hs hlate
+  have hbufs : ∀ p ∈ R4, ∀ e ∈ (sp.node p).st.buffer, ∀ x ∈ e.2, x.core.typ ≠ tDecided := by decide
+  have hnd : ∀ p ∈ Pp.R, ∀ x ∈ old p, x.core.typ ≠ tDecided := by
+    intro p hpR x hx
+    obtain ⟨e, hw, _⟩ := hp.mem p hpR
+    obtain ⟨en, hen, hxe⟩ := bufIs_mem hw.buf hx
+    exact hbufs p hpR en hen x hxe
+  have hinpC : ∀ p ∈ Pp.R, (sp.node p).st.inputValue = Pp.inp p := by decide
+  rcases timed_prepared_good_round Pp _ Xp _ old hy hnd hinpC (by decide) (by decide) (by decide)
+    (by decide) sp hp acts s' hs with ⟨h, _⟩ | ⟨w, Q, hw, _, _, _, _, _, hall⟩
+  · have : s'.now ≤ 1000000000 + 0 + 100000000 := h
+    omega
+  · exact ⟨w, hw, hall hlate⟩
 
 /-- an execution in which every message takes the full 100 ms: ROUND-CHANGEs (members 1 and 3 attach
 their certificates), the PRE-PREPARE of member 2 — for the prepared value 8, not its own input 9 —,
